@@ -28,21 +28,23 @@ Definition f10_sched : list label :=
 (* On go.h as it is: T2's send returns true, its value (2,0) was overwritten by T3's and is
    never delivered; T3's value IS delivered, yet T3 stays asleep on m_unbuf_send_cv with nobody
    left to wake it (it returns true only when its Timeout expires). *)
-Lemma f10_witness :
+Definition f10_witness_stmt : Prop :=
   exists s, urun false (u_init f10_progs 1000) f10_sched = Some s /\
     u_sent_true s (2, 0)%nat = true /\
     count_val (2, 0)%nat (u_taken s) = O /\
     u_taken s = [(3, 0)%nat] /\ u_lost s = [(2, 0)%nat] /\ u_slot s = None /\
     u_done s 1%nat = true /\ u_done s 2%nat = true /\
     u_asleep s 3%nat = true /\ u_scv s = [3%nat] /\ u_mtx s = None.
-Proof. eexists. split; [vm_compute; reflexivity|]. vm_compute. repeat split; reflexivity. Qed.
+Lemma f10_witness : f10_witness_stmt.
+Proof. unfold f10_witness_stmt. eexists. split; [vm_compute; reflexivity|]. vm_compute. repeat split; reflexivity. Qed.
 
 (* the same schedule on the repaired code: T3 waits for the slot; (2,0) is delivered *)
-Lemma f10_fixed_behaviour :
+Definition f10_fixed_behaviour_stmt : Prop :=
   exists s, urun true (u_init f10_progs 1000) (thr [1;1;1; 2;2;2;2;2; 3;3;3; 1;1; 2;2;2; 3;3]%nat) = Some s /\
     u_taken s = [(2, 0)%nat] /\ u_lost s = [] /\ u_sent_true s (2, 0)%nat = true /\
     u_sent_true s (3, 0)%nat = false /\ u_asleep s 3%nat = true /\ u_rw s = 0.
-Proof. eexists. split; [vm_compute; reflexivity|]. vm_compute. repeat split; reflexivity. Qed.
+Lemma f10_fixed_behaviour : f10_fixed_behaviour_stmt.
+Proof. unfold f10_fixed_behaviour_stmt. eexists. split; [vm_compute; reflexivity|]. vm_compute. repeat split; reflexivity. Qed.
 
 (* ---- F11: buffered channel, check-then-register lost wake-up (needs two vCPUs: the steps of
    two threads interleave between a failed push/pop and the registration as a waiter) ---------- *)
@@ -54,30 +56,33 @@ Definition b_done (s : bst) (t : tid) : bool :=
    registers and sleeps on m_send_sem although a slot is free and nobody is inside a call. *)
 Definition f11a_progs : tid -> list op := progs_fun [[OSend MAX64; OSend MAX64]; [ORecv MAX64]].
 Definition f11a_sched : list label := thr [1;1;1;1;1;1;1; 1;1;1;1;1; 2;2;2; 1;1]%nat.
-Lemma f11a_witness :
+Definition f11a_witness_stmt : Prop :=
   exists s, brun 1 (b_init f11a_progs 1000) f11a_sched = Some s /\
     b_q s = [] /\ b_closed s = false /\ b_done s 2%nat = true /\
     b_asleep s 1%nat = true /\ sm_q (b_ssem s) = [1%nat] /\ sm_cnt (b_ssem s) = 0 /\
     b_dl s 1%nat = MAX64 /\ b_popped s = [(1, 0)%nat].
-Proof. eexists. split; [vm_compute; reflexivity|]. vm_compute. repeat split; reflexivity. Qed.
+Lemma f11a_witness : f11a_witness_stmt.
+Proof. unfold f11a_witness_stmt. eexists. split; [vm_compute; reflexivity|]. vm_compute. repeat split; reflexivity. Qed.
 
 (* (b) receiver: T1's pop finds the buffer empty; T2 sends, sees m_receivers_waiting == 0;
    T1 registers and sleeps although an item is buffered. *)
 Definition f11b_progs : tid -> list op := progs_fun [[ORecv MAX64]; [OSend MAX64]].
 Definition f11b_sched : list label := thr [1;1;1;1; 2;2;2;2;2;2;2; 1;1]%nat.
-Lemma f11b_witness :
+Definition f11b_witness_stmt : Prop :=
   exists s, brun 1 (b_init f11b_progs 1000) f11b_sched = Some s /\
     b_q s = [((2, 0)%nat, true)] /\ b_closed s = false /\ b_done s 2%nat = true /\
     b_sent_true s (2, 0)%nat = true /\
     b_asleep s 1%nat = true /\ sm_q (b_rsem s) = [1%nat] /\ sm_cnt (b_rsem s) = 0 /\ b_dl s 1%nat = MAX64.
-Proof. eexists. split; [vm_compute; reflexivity|]. vm_compute. repeat split; reflexivity. Qed.
+Lemma f11b_witness : f11b_witness_stmt.
+Proof. unfold f11b_witness_stmt. eexists. split; [vm_compute; reflexivity|]. vm_compute. repeat split; reflexivity. Qed.
 
 (* (c) close: T1's recv has seen "not closed"; T2's close() reads m_receivers_waiting == 0;
    T1 registers and sleeps for ever on a closed channel. *)
 Definition f11c_progs : tid -> list op := progs_fun [[ORecv MAX64]; [OClose]].
 Definition f11c_sched : list label := thr [1;1;1;1; 2;2;2;2;2;2; 1;1]%nat.
-Lemma f11c_witness :
+Definition f11c_witness_stmt : Prop :=
   exists s, brun 1 (b_init f11c_progs 1000) f11c_sched = Some s /\
     b_closed s = true /\ b_done s 2%nat = true /\
     b_asleep s 1%nat = true /\ sm_q (b_rsem s) = [1%nat] /\ sm_cnt (b_rsem s) = 0 /\ b_dl s 1%nat = MAX64.
-Proof. eexists. split; [vm_compute; reflexivity|]. vm_compute. repeat split; reflexivity. Qed.
+Lemma f11c_witness : f11c_witness_stmt.
+Proof. unfold f11c_witness_stmt. eexists. split; [vm_compute; reflexivity|]. vm_compute. repeat split; reflexivity. Qed.
